@@ -254,9 +254,14 @@ def step (st : St) (op impl : String) : St × StepOut :=
     let (s', out) := st.s.step .retry e
     let res := match out.res with | .panic _ => s!"PANIC {fmtEvs out.evs}" | _ => s!"ok {fmtEvs out.evs}"
     let (g, f1) := st.g.observe (implEvents resTxt) none
+    -- a Retry reports every frame still tracked in the Initial and application-data spaces as lost (path probes excepted)
+    let f2 : List Fail := if resTxt.startsWith "ok" then g.pkts.foldl (fun (acc : List Fail) p =>
+        if p.space ≠ 1 ∧ !p.probe ∧ !p.gone ∧ !p.maybeGone ∧ p.frames.any (fun f => !f.2) then
+          acc ++ [("ledger_missing_after_retry", "-", s!"packet {p.pn} (space {p.space}) dropped by the Retry but frames {(p.frames.filter (fun f => !f.2)).map (·.1)} not reported lost")]
+        else acc) [] else []
     -- everything in the Initial and application-data spaces is resolved now; packet numbers skipped before are forgotten
     let g := { g with pkts := g.pkts.map (fun p => if p.space ≠ 1 then { p with gone := true } else p), skipped := [] }
-    fin { st with s := s', g := g } res ["retry"] f1
+    fin { st with s := s', g := g } res ["retry"] (f1 ++ f2)
   | ["migrate", now, _mds] =>
     let (s', out) := st.s.step (.migrate (intOf now)) e
     let res := match out.res with | .panic _ => s!"PANIC {fmtEvs out.evs}" | _ => s!"ok {fmtEvs out.evs}"
